@@ -5,6 +5,7 @@ pub mod unit_a;
 pub mod unit_b;
 pub mod unit_c;
 pub mod unit_d;
+pub mod unit_e;
 
 use crate::runner::{Check, Tier};
 
@@ -21,6 +22,7 @@ pub fn registry() -> Vec<Entry> {
     v.extend(unit_b::entries());
     v.extend(unit_c::entries());
     v.extend(unit_d::entries());
+    v.extend(unit_e::entries());
     v
 }
 
